@@ -48,7 +48,7 @@ def custom_tables(draw, reifications=True, normalizations=True):
         for r in fy(draw, defined_lits)[:draw(st.integers(0, 3))]:
             c = pick(draw, [c for c in _CONCEPTS if c not in used] or _CONCEPTS)
             used.add(c)
-            src, tgt = pick(draw, [(':ARG1', ':ARG2'), (':ARG0', ':ARG1'), (':ARG2', ':ARG1'), (':in', ':out')])
+            src, tgt = pick(draw, [(':A1', ':A2'), (':A0', ':A1'), (':A2', ':A1'), (':src', ':tgt')])  # never reifiable themselves
             spec['reifications'].append([r, c, src, tgt])
     return spec
 
